@@ -361,16 +361,20 @@ ICBWRAP = ["-Wl,--wrap=malloc,--wrap=calloc,--wrap=realloc,--wrap=free,--wrap=po
 def _icb(cfg, body, args, group):
     return Run(cfg, "icb/icb.c", args, group=group, kind="icb", common=[body, "harness/vx.c"], extra_cflags=["-I/verif/icb", "-DVX_ICB"], extra_ldflags=ICBWRAP, instrument_harness=False)
 
+def _tsan_free(tier):
+    return Run(C(thread_safe=1, instr="tsan", cc="clang", opt="-O1"), "icb/tsan_free.c", ["--threads=16"], group="aux-free-running-tsan", kind="aux", common=["harness/vx.c"],
+               extra_cflags=["-I/verif/icb"], extra_ldflags=["-lpthread", "-Wl,--wrap=malloc,--wrap=calloc,--wrap=free"], env=dict(TSAN_OPTIONS="halt_on_error=1:exitcode=66:report_signal_unsafe=0"))
+
 def _c15_runs(tier):
     cfg = C(thread_safe=1, instr="tsancb", opt="-O1")
     if tier == "thorough":
         return [_icb(cfg, "icb/h_c15.c", ["--bound=1", "--alloc-points=1"], "bound1-allocpoints"),
-                _icb(C(thread_safe=1, instr="tsancb", opt="-O1", sse2=0, **MIN), "icb/h_c15.c", ["--bound=2", "--alloc-points=0"], "bound2-static-points")]
-    return [_icb(cfg, "icb/h_c15.c", ["--bound=1", "--alloc-points=1"], "bound1-allocpoints")]
+                _icb(C(thread_safe=1, instr="tsancb", opt="-O1", sse2=0, **MIN), "icb/h_c15.c", ["--bound=2", "--alloc-points=0"], "bound2-static-points"), _tsan_free(tier)]
+    return [_icb(cfg, "icb/h_c15.c", ["--bound=1", "--alloc-points=1"], "bound1-allocpoints"), _tsan_free(tier)]
 
 PROPS["C15"] = dict(
     level="model_checking", runs=_c15_runs, engine="ICB",
-    rule="thread-safe build (flags derived from configure.ac's --enable-thread-safe fragment); scenarios: ALL ordered pairs of a 14-entry operation menu (Strassen and M4RM products, cubic product, M4RI / PLUQ echelon forms, PLE, PLUQ, solve, kernel, transpose, TRSM, inversion, accumulate product, column permutation) on 2 logical threads, 21 triples on 3 threads, 16 threads, and init/window/free bursts, every thread creating, using and freeing its own matrices; scheduling points: every allocator call (malloc/posix_memalign/free; pairs a<=b in quick, all pairs and triples thorough), every write to static storage and every read of static storage written during the run, thread start/end; ALL schedules with at most 1 preemption are executed (iterative context bounding; unlimited non-preemptive switches for 2-3 threads, default schedule plus every single deviation for 16 threads); on every execution a vector-clock happens-before detector watches every load/store of library code (own __tsan_* callbacks, 4-byte granules, memset/memcpy included) and every thread's result digest is compared with the sequential run; states = nodes of the explored schedule tree, transitions = scheduling decisions executed, traces_validated_against_impl = executions (every schedule is executed on the real code)",
+    rule="thread-safe build (flags derived from configure.ac's --enable-thread-safe fragment); scenarios: ALL ordered pairs of a 14-entry operation menu (Strassen and M4RM products, cubic product, M4RI / PLUQ echelon forms, PLE, PLUQ, solve, kernel, transpose, TRSM, inversion, accumulate product, column permutation) on 2 logical threads, 21 triples on 3 threads, 16 threads, and init/window/free bursts, every thread creating, using and freeing its own matrices; scheduling points: every allocator call (malloc/posix_memalign/free; pairs a<=b in quick, all pairs and triples thorough), every write to static storage and every read of static storage written during the run, thread start/end; ALL schedules with at most 1 preemption are executed (iterative context bounding; unlimited non-preemptive switches for 2-3 threads, default schedule plus every single deviation for 16 threads); on every execution a vector-clock happens-before detector watches every load/store of library code (own __tsan_* callbacks, 4-byte granules, memset/memcpy included) and every thread's result digest is compared with the sequential run; states = nodes of the explored schedule tree, transitions = scheduling decisions executed, traces_validated_against_impl = executions (every schedule is executed on the real code); auxiliary (sampling, not part of the exhaustive claim): the same menu on 2..16 real pthreads under the real ThreadSanitizer runtime",
     level_text="Stateless model checking of the real library under a deterministic coroutine scheduler: all interleavings of the scenario threads at the hooked points within the preemption bound are executed, each with a happens-before race detector over every instrumented memory access; since the thread-safe build has no synchronisation of its own, any conflicting pair of accesses is concurrent in every schedule, so race-freedom is decided on each single execution and the schedule enumeration decides result equality.",
     level_note="Bounded: preemption bound 1 (2 without allocator points in thorough), menu operations on small shapes, sequentially consistent interleavings (justified by race-freedom). libc's allocator is trusted to be thread-safe; its internal synchronisation is not modelled (blocks are re-initialised in the shadow on allocation).",
     technique="stateless model checking on the real code: preemption-bounded exhaustive schedule enumeration (ICB) over hooked scheduling points + vector-clock happens-before race detection on every execution",
